@@ -684,6 +684,21 @@ func dataDependsOn(v, src ssa.Value) bool {
 				if st, ok := ref.(*ssa.Store); ok && st.Addr == ssa.Value(al) && visit(st.Val, d+1) {
 					return true
 				}
+				// elements / fields of a local composite (the array behind a slice literal or a variadic list)
+				switch a := ref.(type) {
+				case *ssa.IndexAddr:
+					for _, r2 := range *a.Referrers() {
+						if st, ok := r2.(*ssa.Store); ok && st.Addr == ssa.Value(a) && visit(st.Val, d+1) {
+							return true
+						}
+					}
+				case *ssa.FieldAddr:
+					for _, r2 := range *a.Referrers() {
+						if st, ok := r2.(*ssa.Store); ok && st.Addr == ssa.Value(a) && visit(st.Val, d+1) {
+							return true
+						}
+					}
+				}
 			}
 			return false
 		}
@@ -753,6 +768,10 @@ func sliceRangeElemCarried(fn *ssa.Function, overSlice func(ssa.Value) bool) (nl
 			}
 			for i, e := range p.Edges {
 				if !li.body[li.header.Preds[i]] || e == ssa.Value(p) {
+					continue
+				}
+				// an accumulator: acc = append(acc, f(x)) collects per-element results, it is not a cursor
+				if c, ok := e.(*ssa.Call); ok && isBuiltin(c, "append") && len(c.Call.Args) > 0 && (c.Call.Args[0] == ssa.Value(p) || derivesFrom(c.Call.Args[0], p)) {
 					continue
 				}
 				for _, el := range elems {
